@@ -6,7 +6,7 @@ import numpy
 from .alpha import spec, enc_num
 
 NAMESETS = [("q0",), ("q1",), ("q0", "q1"), ("q0", "q2"), ("q1", "q2"), ("q2", "q10"),
-            ("q0", "q1", "q2"), ("q0", "q1", "q2", "q10")]
+            ("q0", "q1", "q2"), ("q0", "q1", "q2", "q10"), ("q3", "q7", "q11"), ("q0", "q1", "q2", "q3", "q4", "q5"), ("q1", "q0")]
 
 SHAPES = [(), (1,), (2,), (3,), (1, 1), (1, 2), (2, 1), (2, 2), (2, 3), (3, 1), (1, 1, 1), (1, 2, 1),
           (2, 1, 2), (2, 2, 2), (1, 1, 3), (2, 1, 3)]
